@@ -128,6 +128,28 @@ def run_history(res, stack, cfg, hist, label):
                     r = m.get(args[0])
                     exp = ("ret", D if r is None else r)
                     call = ("get", (args[0], D), {})
+                elif name == "scoped_copy_get":
+                    # a short-lived shallow copy of the client (same connection) reads the key and goes away; the original
+                    # carries on.  The outcome judged is the copy's get; the calls after it judge the original
+                    r = m.get(args[0])
+                    exp = ("ret", D if r is None else r)
+                    call = ("get", (args[0], D), {})
+                    if stack == "client":
+                        import copy as _copy
+                        import gc as _gc
+                        orig = w.obj
+                        w.obj = _copy.copy(orig)
+                        try:
+                            out_copy = w.call(i, call)
+                        finally:
+                            w.obj = orig
+                        _gc.collect()
+                        res.count("scoped_copies")
+                        got = out_copy if out_copy[0] == "ret" else ("exc", out_copy[1])
+                        if got != exp:
+                            res.violation("return-differs-from-model:%s:get:scoped-copy" % stack, "a shallow copy's get(%r) returned %r, model says %r"
+                                          % (args[0], got, exp), case)
+                            return
                 elif name == "gat":
                     r = m.gat(args[0], args[1])
                     exp = ("ret", D if r is None else r)
@@ -297,7 +319,7 @@ def random_history(rng):
         elif c == 4:
             h.append(("cas", k, rng.choice(vals), rng.choice(("last", "last", "first", "bogus"))) + nr)
         elif c in (5, 6):
-            h.append(("get", k))
+            h.append(("get", k) if rng.random() < 0.85 else ("scoped_copy_get", k))
         elif c in (7, 8):
             h.append(("gets", k))
         elif c == 9:
